@@ -95,6 +95,12 @@ var c09Dests = []c09Dest{
 	{"[]byte", func() interface{} { return new([]byte) }},
 	{"number", func() interface{} { return new(json.Number) }},
 	{"[]string", func() interface{} { return new([]string) }},
+	{"raw", func() interface{} { return new(c09Raw) }},
+}
+
+type c09Raw struct {
+	X json.RawMessage
+	A int
 }
 
 func c09Class(b []byte) string {
@@ -184,13 +190,14 @@ func runC09(c *Ctx) {
 		"string":   {`""`, `"abc"`, `"a\nb"`, `"é😀"`, `"é€😀"`, `"\ud800"`, "null", `"unterminated`, "12", `"\x"`},
 		"bool":     {"true", "false", "null", "tru", "truex", "falsE", " true "},
 		"[]int":    {"[]", "[1]", "[1,2,3]", " [ 1 , 2 ] ", "[1,]", "[1 2]", "null", "[1,[2]]", "[", "[1"},
-		"[2]int":   {"[]", "[1]", "[1,2]", "[1,2,3]", "[1,2,3,{\"a\":[1,2]}]", "null"},
+		"[2]int":   {"[]", "[1]", "[1,2]", "[1,2,3]", "[1,2,  333,  4444 ]", "[1,2,  \"s\" ,  [  5 ] ]", "[1,2,3,{\"a\":[1,2]}]", "null"},
 		"map":      {"{}", `{"a":1}`, `{"a":1,"b":[true,null]}`, `{ "a" : { "b" : "c" } }`, `{"a":1,}`, `{"a"}`, "null", `{"a":1`},
 		"struct":   {"{}", `{"A":1}`, `{"A":1,"B":"x","C":[1.5,2]}`, `{"a":2,"b":"y"}`, `{"A":1,"Z":{"deep":[1,2,{"x":"}"}]}}`, `{"A":"x"}`, "null", `{"B":"a\"b"}`},
-		"skip":     {`{"x":1,"a":2}`, `{"x":[1,2,{"y":"]"}],"a":3}`, `{"x":"str\"ing","a":4}`, `{"x":{"a":9},"a":5}`, `{"a":1,"x":tru}`, `{"x":nul,"a":1}`},
+		"skip":     {`{"x":  12,"a":1}`, `{"x": -1.5e3 ,"a":1}`, `{"x":[1,  2 ,3],"a":1}`, `{"x":  "s" ,"a":1}`, `{"x":  true,"a":1}`, `{"x":   null ,  "a" : 1 }`, `{"a":1,"x":   123456}`, `{"x":1,"a":2}`, `{"x":[1,2,{"y":"]"}],"a":3}`, `{"x":"str\"ing","a":4}`, `{"x":{"a":9},"a":5}`, `{"a":1,"x":tru}`, `{"x":nul,"a":1}`},
 		"*int":     {"1", "null", "-5"},
 		"[]byte":   {`""`, `"aGVsbG8="`, `"aGVsbG8"`, "null", `"!!"`},
 		"number":   {"1", "-2.5e10", "1e999", `"12"`, "null", "01"},
+		"raw":      {`{"X":  12,"A":1}`, `{"X":[1,  2],"A":1}`, `{"A":1,"X":   {"k":  "v"} }`, `{"X":  "a\\nb","A":2}`, `{"X":  -0.5e1 }`, `{"X":null,"A":3}`},
 		"[]string": {`[]`, `["a","b"]`, `["a\tb","A"]`, `["a",1]`, `["a"`},
 	}
 	for _, d := range c09Dests {
